@@ -314,10 +314,19 @@ def run(ctx):
     r07_5(ctx)
     r07_6(ctx)
     r07_7(ctx)
+    # no worker is forked once the pool left RUN (a late fork after close() is a process join() never waits for)
+    from .c09 import r09_1
+    r09_1(ctx)
+    from .c01 import feeder_serves_while_running
+    feeder_serves_while_running(ctx, 'R07.8')
 
 
 _P = 'billiard/pool.py'
 MUTANTS = [
+    ('refill-state-checked-once', _P, "        for i in range(self._processes - len(self._pool)):\n            if self._state != RUN:\n                return\n",
+     "        if self._state != RUN:\n            return\n        for i in range(self._processes - len(self._pool)):\n", 'R09.1'),
+    ('feeder-ends-after-one-bad-task', _P, "                            cache[job]._set(ind, (False, ExceptionInfo()))\n                        except KeyError:\n                            pass\n",
+     "                            cache[job]._set(ind, (False, ExceptionInfo()))\n                        except KeyError:\n                            pass\n                        break\n", 'R07.8'),
     ('map-after-close', _P, "        if self._state != RUN:\n            return\n        if not hasattr(iterable, '__len__'):", "        if not hasattr(iterable, '__len__'):", 'R07.1'),
     ('imap-after-close', _P, "        if self._state != RUN:\n            return\n        lost_worker_timeout = lost_worker_timeout or self.lost_worker_timeout\n        if chunksize == 1:\n            result = IMapIterator(",
      "        lost_worker_timeout = lost_worker_timeout or self.lost_worker_timeout\n        if chunksize == 1:\n            result = IMapIterator(", 'R07.1'),
